@@ -138,7 +138,23 @@ func (lex *Lexer) readToken() []*token.Token {
 		// silently rewrote the one-symbol form into the two-symbol form --
 		// the formatter changing the program it was asked to tidy.  Found by
 		// FuzzFormatCompact on "(------ )".
-		if c, ok := lex.scanner.Peek(); !ok || unicode.IsSpace(c) || c == ')' || c == ']' {
+		//
+		// The set was still written as a list of things that END a token, and
+		// a list like that is never complete: "--(a)", "--[a]", "--'a",
+		// "--\"s\"" and "(--;c\n)" all lexed the second dash as NEGATIVE and
+		// read as the two symbols "-" "-", while the same text with a space
+		// after the dashes read as the one symbol "--".  The tree depended on
+		// whitespace between a complete expression and the bracket, quote,
+		// string or comment that follows it.  So the test now asks the question
+		// the first paragraph states: CAN the next rune be glued to a sign?
+		// ParseNegative merges a sign with an INT, a FLOAT or a SYMBOL token
+		// and with nothing else, and those start with a digit, a symbol-start
+		// rune, or ':' respectively.  Every other rune -- and end of input --
+		// leaves the dash a symbol of its own.  A lone "-" is unaffected either
+		// way (ParseNegative already turned an unmergeable NEGATIVE into the
+		// symbol "-"); only a run of dashes changes, and only in the glued
+		// spellings above.
+		if c, ok := lex.scanner.Peek(); !ok || !canFollowSign(c) {
 			return lex.emitText(token.SYMBOL)
 		}
 		return lex.emitText(token.NEGATIVE)
@@ -429,6 +445,13 @@ func isWordStart(c rune) bool {
 
 func isWord(c rune) bool {
 	return unicode.IsLetter(c) || strings.ContainsRune(miscWordRunes, c)
+}
+
+// canFollowSign reports whether c can begin a token that ParseNegative merges
+// with a preceding '-': an INT or FLOAT (a digit), or a SYMBOL (a symbol-start
+// rune, or the ':' of a keyword or package-qualified name).
+func canFollowSign(c rune) bool {
+	return isDigit(c) || isWordStart(c) || c == ':'
 }
 
 func isDigit(c rune) bool {
